@@ -68,6 +68,19 @@ Proof.
 Qed.
 Print Assumptions C11_linear_decoders_bytes.
 
+(* message-level entry points (Message.data and the client's reply/first-message buffering): with the guards that
+   tools/go-ir found in front of every make([]byte, declared length) accepted by entries_ok, a message whose
+   header declares n bytes is buffered only if n <= the guard's constant, and buffering plus decoding allocates at
+   most (coef+1)*limit + size. *)
+Theorem C11_entry_alloc_bound : forall ps gs unguarded, all_linear ps = true -> entries_ok gs unguarded = true ->
+  forall g, In g gs -> forall n, 0 <= n -> cmp_eval (fst g) n (snd g) = false ->
+  forall f body, lookup ps f = Some body -> forall bs : list Z, Z.of_nat (length bs) = n ->
+    exists ok st, decode ps f bs = FRet ok st /\
+      n + salloc st <= (coef ps + 1) * entry_limit gs + size ps /\
+      scost st <= coef ps * entry_limit gs + size ps.
+Proof. exact entry_alloc_bound. Qed.
+Print Assumptions C11_entry_alloc_bound.
+
 (* The hypotheses are satisfiable by a non-trivial table: a parameter with a fixed field and a loop of TLV
    sub-parameters decoded by a second (recursive) decoder, written the way the fixed generator writes them. *)
 Definition ex_leaf : block :=
